@@ -1,5 +1,6 @@
 SPECIFICATION GenSpec
 CONSTANTS
+  Methods = {"GET"}
   Versions = {"1.1"}
   CTypes = {"default", "application/json; charset=utf-8", "image/png"}
   AEs = {"absent", "gzip", "deflate, gzip", "identity"}
